@@ -268,9 +268,9 @@ pub fn run(args: Args) {
     run.assume("libxcrypt crypt(3), python hashlib, the pure-Python MD4 of pyref/c30_common.py and the OpenSSL 3.5 Argon2id KDF are correct implementations of their formats (the scripts self-check against published vectors at start)");
     run.assume("crypt(3) formats: cleartexts with NUL or over 512 bytes are not asked (libxcrypt refuses them)");
     let nw = args.workers.max(1) as u64;
-    let per_format: u64 = args.tier.pick(160u64, 4000).div_ceil(nw);
-    let rev_argon: u64 = args.tier.pick(160u64, 4000).div_ceil(nw);
-    let rev_pbkdf2: u64 = args.tier.pick(160u64, 4000).div_ceil(nw);
+    let per_format: u64 = args.tier.pick(160u64, 3200).div_ceil(nw);
+    let rev_argon: u64 = args.tier.pick(160u64, 3200).div_ceil(nw);
+    let rev_pbkdf2: u64 = args.tier.pick(160u64, 3200).div_ceil(nw);
     let seed = args.seed;
     run.parallel(args.workers, |w, n| {
         let mut acc = Acc::new();
